@@ -191,7 +191,7 @@ def mem_trace(kinds, rows, sep, esc, op='mem', form=0):
     return make_trace(op, kinds, rows, sep, esc, results, extra)
 
 
-def file_trace(kinds, rows, sep, esc, second_pass=False):
+def file_trace(kinds, rows, sep, esc, second_pass=False, at_completion=False):
     """dump_to_file / load_from_file(encoding='utf-8'); the file is read by the real
     code in chunks of 64 Ki characters.  An error ends the stream: the rows behind
     the failing one are not observed (dropped from the trace, counted)."""
@@ -203,24 +203,39 @@ def file_trace(kinds, rows, sep, esc, second_pass=False):
     with C.scratch('rxsci-verif.c18.') as d:
         path = os.path.join(d, 'rows.csv')
         werr = []
-        rx.from_([X(*r) for r in rows]).pipe(
-            csv.dump_to_file(path, separator=sep, escapechar=esc, encoding='utf-8'),
-        ).subscribe(on_error=werr.append)
+        got, err = [], []
+        parser = csv.create_line_parser(dtype=dtype, separator=sep, escapechar=esc)
+
+        def load():
+            try:
+                loaded = csv.load_from_file(path, parser, encoding='utf-8')
+                if second_pass:
+                    # the observable returned by load_from_file is subscribed a second time
+                    # (a second pass over the file): the second pass is the one that is judged
+                    loaded.subscribe(on_next=lambda i: None, on_error=lambda e: None)
+                loaded.subscribe(on_next=got.append, on_error=err.append)
+            except Exception as e:
+                err.append(e)
+        if at_completion:
+            # rows pushed one by one; the file is read back the moment the dump reports its
+            # completion (which is what tells a user that the file is there)
+            from rx.subject import Subject
+            src = Subject()
+            src.pipe(csv.dump_to_file(path, separator=sep, escapechar=esc, encoding='utf-8'),
+                     ).subscribe(on_error=werr.append, on_completed=load)
+            for r in rows:
+                src.on_next(X(*r))
+            src.on_completed()
+        else:
+            rx.from_([X(*r) for r in rows]).pipe(
+                csv.dump_to_file(path, separator=sep, escapechar=esc, encoding='utf-8'),
+            ).subscribe(on_error=werr.append)
         if werr:
             raise C.MachineryError('dump_to_file failed: %r' % (werr[0],))
         with open(path, 'rb') as f:
             text = f.read().decode('utf-8')
-        got, err = [], []
-        parser = csv.create_line_parser(dtype=dtype, separator=sep, escapechar=esc)
-        try:
-            loaded = csv.load_from_file(path, parser, encoding='utf-8')
-            if second_pass:
-                # the observable returned by load_from_file is subscribed a second time
-                # (a second pass over the file): the second pass is the one that is judged
-                loaded.subscribe(on_next=lambda i: None, on_error=lambda e: None)
-            loaded.subscribe(on_next=got.append, on_error=err.append)
-        except Exception as e:
-            err.append(e)
+        if not at_completion:
+            load()
     lines = text.split('\n')[1:]
     results = []
     n = min(len(got), len(rows))
@@ -236,6 +251,7 @@ def file_trace(kinds, rows, sep, esc, second_pass=False):
     inside = [b for b in range(65536, len(text), 65536) if text[b - 1] != '\n']
     tr['file'] = {'chars': len(text), 'bytes': len(text.encode('utf-8')), 'rows_written': len(rows),
                   'rows_observed': len(results), 'reads': len(text) // 65536 + 1,
+                  'at_completion': at_completion,
                   'boundaries_inside_a_row': len(inside)}
     return tr
 
@@ -509,7 +525,7 @@ def do_replay(path):
     if tr['op'] == 'file':
         # the rows behind a failing row were not recorded; the file is rebuilt from the
         # recorded prefix, which contains every row up to the witness
-        new = file_trace(tr['schema'], rows, sep, esc)
+        new = file_trace(tr['schema'], rows, sep, esc, at_completion=tr.get('file', {}).get('at_completion', False))
     else:
         new = mem_trace(tr['schema'], rows, sep, esc, op=tr['op'])
     merge, _ = probe_variants()
@@ -586,7 +602,7 @@ def main(tier, replay):
                 rows += rr
                 if sum(sum(len(str(v)) + 3 for v in r) for r in rows) < target:
                     continue
-                t = file_trace(kinds, rows, sep, esc, second_pass=(n % 2 == 1))
+                t = file_trace(kinds, rows, sep, esc, second_pass=(n % 2 == 1), at_completion=(n % 3 == 0))
                 if t['file']['chars'] >= target:
                     break
             t['profile'] = 'no-trailing-escape' if clean else 'any'
@@ -618,7 +634,7 @@ def main(tier, replay):
                     break
             if rows is None:
                 rows = [(0, '')] + body
-            t = file_trace('is', rows, ',', '\\', second_pass=(k % 2 == 1))
+            t = file_trace('is', rows, ',', '\\', second_pass=(k % 2 == 1), at_completion=(k % 3 == 0))
             t['profile'] = 'multibyte-character-across-byte-65536'
             file_infos.append(dict(t['file'], sep=',', esc='\\', schema='is', profile=t['profile']))
             traces.append(t)
